@@ -13,13 +13,15 @@ def stats(lo, hi):
             if r.startswith("detected"): det += 1
             else: miss += 1
     return det, miss
-d2, m2 = stats(4, 6); d3, m3 = stats(7, 8); d4, m4 = stats(9, 9)
+d2, m2 = stats(4, 6); d3, m3 = stats(7, 8); d4, m4 = stats(9, 9); d5, m5 = stats(10, 10); d6, m6 = stats(11, 11)
 txt = ("**Round 2** (%d changes: %d detected at the first run, %d missed at first and detected after the strengthening named in the row).\n\n%s\n\n"
        "**Round 3** (%d changes: %d detected at the first run, %d missed at first).\n\n%s\n\n"
-       "**Round 4** (%d changes, one per property, written after the round-3 deepening and evaluated on the final checks: %d detected at the first run, %d missed at first).\n\n%s\n"
-       % (d2 + m2, d2, m2, table(4, 6), d3 + m3, d3, m3, table(7, 8), d4 + m4, d4, m4, table(9, 9)))
+       "**Round 4** (%d changes, one per property, written after the round-3 deepening and evaluated on the final checks: %d detected at the first run, %d missed at first).\n\n%s\n\n"
+       "**Round 5** (%d changes, one per property, written by fresh agents at the start of the fifth session and evaluated against a frozen snapshot of the checks taken before any round-5 work: %d detected at the first run, %d missed at first).\n\n%s\n\n"
+       "**Round 6** (%d changes restricted to two kinds: (A) two cooperating edit sites each harmless alone, (B) history-dependent breakage - the property holds for every fresh call and fails only after a multi-step history on one object / in one process; same frozen snapshot: %d detected at the first run, %d missed at first).\n\n%s\n"
+       % (d2 + m2, d2, m2, table(4, 6), d3 + m3, d3, m3, table(7, 8), d4 + m4, d4, m4, table(9, 9), d5 + m5, d5, m5, table(10, 10), d6 + m6, d6, m6, table(11, 11)))
 p = "/verif/DESIGN.md"
 s = open(p).read()
 s = re.sub(r"(<!-- SEEDED-ROUNDS-BEGIN -->\n).*?(<!-- SEEDED-ROUNDS-END -->)", lambda m: m.group(1) + txt + m.group(2), s, flags=re.S)
 open(p, "w").write(s)
-print("round2", d2, m2, "round3", d3, m3, "round4", d4, m4)
+print("round2", d2, m2, "round3", d3, m3, "round4", d4, m4, "round5", d5, m5, "round6", d6, m6)
